@@ -7,8 +7,8 @@ import panics
 import model_lc as ml
 import model_msgs as mm
 import rules_lc as R
+import names as NM
 
-PSTATE = "htlc_manager::PaymentState"
 
 
 class HH:
@@ -27,10 +27,13 @@ def handler(C):
         C._hh = None
         return None
     cs = [c for c in b.calls if not c.noise]
-    H.lock = [c for c in cs if c.name == "tokio::sync::Mutex::lock" and "htlc_manager::PaymentState" in c.full]
-    H.entry = [c for c in cs if c.name == "std::collections::HashMap::entry" and "htlc_manager::PaymentState" in c.full]
+    H.lock = [c for c in cs if c.name == "tokio::sync::Mutex::lock" and NM.PS() in c.full]
+    H.entry = [c for c in cs if c.name == "std::collections::HashMap::entry" and NM.PS() in c.full]
     H.or_insert = [c for c in cs if c.name == "std::collections::hash_map::Entry::or_insert_with"]
-    H.check = [c for c in cs if c.t.get("rty") == "htlc_manager::HtlcCheckResult"]
+    H.names = NM.of(F)
+    H.check = [c for c in cs if c.t.get("rty") in H.names.check]
+    H.tramp_variant = H.names.check[H.check[0].t["rty"]][0] if H.check else "Trampoline"
+    H.resp_variant = H.names.check[H.check[0].t["rty"]][1] if H.check else "Response"
     H.fail_calls = [c for c in cs if (c.resolved or c.name) in A.fail_requester_fns]
     H.add_calls = [c for c in cs if (c.resolved or c.name) in A.add_listener_fns]
     H.oneshot = [c for c in cs if c.name == "tokio::sync::oneshot::channel"]
@@ -38,6 +41,19 @@ def handler(C):
     H._sw = ml.enum_switches(b, X)
     C._hh = H
     return H
+
+
+def _is_check_agg(H, rv):
+    """aggregate constructing a value of the classification result type"""
+    if rv.get("ak") != "adt":
+        return False
+    for ty, (tv, pv) in H.names.check.items():
+        if ty.startswith("std::result::Result<"):
+            if canon(rv.get("adt") or "") == "std::result::Result" and rv.get("variant") in (tv, pv):
+                return True
+        elif canon(rv.get("adt") or "") == canon(ty.split("<")[0]):
+            return True
+    return False
 
 
 def need_hh(C, rep, rid):
@@ -141,7 +157,7 @@ def bool_guards_at(b, bb):
     for c, truth in lib.dominating_conditions(b, bb):
         if c.kind == "bool" and c.place is not None:
             fs = [x for x in c.place["p"] if x["k"] == "field"]
-            if fs and canon(fs[-1].get("o", "")) == PSTATE:
+            if fs and canon(fs[-1].get("o", "")) == NM.PS():
                 out[fs[-1]["n"]] = truth
     return out
 
@@ -181,7 +197,7 @@ def n1_continue_paths_effect_free(C, rep, rid):
                    detail="" if ok else "%s, called on the pass-through path, %s" % (callee, ("has effects " + ",".join("%s@%s" % (k, v[0].loc) for k, v in sub.items())) if sub else "is async"))
     # the lock is taken only under arm(Trampoline) and forward_msat = Some
     facts = R.dom_enum_facts(b, X, lk.bb)
-    tr = any(any(a[0] == "call" and a[3][1] == c.bb for a in alts(e)) and truth == ("Trampoline",) for e, truth, _c in facts for c in H.check)
+    tr = any(any(a[0] == "call" and a[3][1] == c.bb for a in alts(e)) and truth == (H.tramp_variant,) for e, truth, _c in facts for c in H.check)
     rep.ob(rid, tr, H.fn, "lock only for HtlcCheckResult::Trampoline", where=lk.loc, how="dominated by that arm of the classification result",
            detail="" if tr else "the payments lock can be taken for an HTLC that was not classified as trampoline")
     fw = any(e[0] == "field" and e[1] == "forward_msat" and truth == ("Some",) for e, truth, _c in facts)
@@ -211,7 +227,7 @@ def n2_forward_classification(C, rep, rid):
         rep.anchor(rid, "classification fn body", 0)
         return
     fn = F.root_of(cb)
-    aggs = [(bi, s) for bi in sorted(cb.reachable) for s in cb.blocks[bi]["s"] if s["k"] == "assign" and s["rv"]["k"] == "agg" and s["rv"].get("adt") == "htlc_manager::HtlcCheckResult"]
+    aggs = [(bi, s) for bi in sorted(cb.reachable) for s in cb.blocks[bi]["s"] if s["k"] == "assign" and s["rv"]["k"] == "agg" and _is_check_agg(H, s["rv"])]
     rep.anchor(rid, "HtlcCheckResult constructions", len(aggs), 2, fn=fn)
     sc = [c for c in cb.calls if c.name == "std::option::Option::is_some" and any(x[0] == "field" and x[1] == "short_channel_id" for x in walk(strip(X.operand(cb, c.args[0]))))]
     rep.anchor(rid, "short_channel_id.is_some() test", len(sc), 1, fn=fn)
@@ -224,7 +240,7 @@ def n2_forward_classification(C, rep, rid):
             for bi, s in aggs:
                 if bi in r:
                     e = strip(X.operand(cb, s["rv"]["ops"][0]))
-                    vals = mm.eval_response(F, X, e, C.enc_table) if s["rv"]["variant"] == "Response" else [("Trampoline",)]
+                    vals = mm.eval_response(F, X, e, C.enc_table) if s["rv"]["variant"] == H.resp_variant else [("Trampoline",)]
                     ok = all(v[0] == "Continue" for v in vals)
                     rep.ob(rid, ok, fn, "forward => continue", where=loc(s["sp"]), how=str([v[0] for v in vals]), detail="" if ok else "an HTLC with short_channel_id is classified as %s" % [v[0] for v in vals])
             for c in ext:
@@ -252,7 +268,7 @@ def n2_forward_classification(C, rep, rid):
                 if bi in own:
                     n += 1
                     e = strip(X.operand(cb, s["rv"]["ops"][0]))
-                    vals = mm.eval_response(F, X, e, C.enc_table) if s["rv"]["variant"] == "Response" else [("Trampoline",)]
+                    vals = mm.eval_response(F, X, e, C.enc_table) if s["rv"]["variant"] == H.resp_variant else [("Trampoline",)]
                     ok = all(v[0] == "Continue" for v in vals)
                     rep.ob(rid, ok, fn, "extractor %s => continue" % name, where=loc(s["sp"]), how=str([v[0] for v in vals]),
                            detail="" if ok else "unusable trampoline metadata (%s) is answered with %s instead of continue" % (name, [v[0] for v in vals]))
@@ -354,7 +370,7 @@ def p3_answer_reaches_everyone(C, rep, rid):
     rep.anchor(rid, "drain fn (Vec<oneshot::Sender>::pop)", len(A.drain_fns), 1)
     for rf in A.resolve_fns:
         for b in F.group(rf):
-            rem = [c for c in b.calls if c.name == "std::collections::HashMap::remove" and PSTATE in c.full]
+            rem = [c for c in b.calls if c.name == "std::collections::HashMap::remove" and NM.PS() in c.full]
             if not rem:
                 continue
             dr = [c for c in b.calls if (c.resolved or c.name) in A.drain_fns]
@@ -489,7 +505,7 @@ def latch_info(C):
             if c.name not in ("tokio::sync::mpsc::Sender::send", "tokio::sync::mpsc::Sender::try_send", "tokio::sync::mpsc::Sender::blocking_send", "tokio::sync::mpsc::Sender::send_timeout") or c.noise:
                 continue
             e = strip(X.operand(b, c.args[0]))
-            if not (e[0] == "field" and canon(e[2]) == PSTATE):
+            if not (e[0] == "field" and canon(e[2]) == NM.PS()):
                 continue
             guards = bool_guards_at(b, c.bb)
             # flags set true on every path from entry to the send, after their guard
@@ -498,7 +514,7 @@ def latch_info(C):
                 for s in b.blocks[bi]["s"]:
                     if s["k"] == "assign":
                         fs = [x for x in s["lhs"]["p"] if x["k"] == "field"]
-                        if fs and canon(fs[-1].get("o", "")) == PSTATE and s["lhs"]["p"][-1]["k"] == "field":
+                        if fs and canon(fs[-1].get("o", "")) == NM.PS() and s["lhs"]["p"][-1]["k"] == "field":
                             v = const_bool_of(b, s)
                             if v is not None:
                                 sets[fs[-1]["n"]] = v
@@ -512,9 +528,9 @@ def p6_no_blocking_under_lock(C, rep, rid, all_regions=False):
     allowed = set(A.fail_requester_fns) | set(A.add_listener_fns)
     nreg = 0
     for b in F.code_bodies():
-        if not b.locals_of_type(ml.GUARD_TY):
+        if not b.locals_of_type(ml.guard_ty()):
             continue
-        for r in guard_regions(F, b, ml.GUARD_TY):
+        for r in guard_regions(F, b, ml.guard_ty()):
             nreg += 1
             fn = F.root_of(b)
             where = loc(b.term(r.def_blocks[0])["sp"])
@@ -566,7 +582,7 @@ def p6_no_blocking_under_lock(C, rep, rid, all_regions=False):
     # resets of latch flags
     for info in li:
         for flag in info.get("latch", []):
-            writes, borrows = field_writes(F, PSTATE, flag)
+            writes, borrows = field_writes(F, NM.PS(), flag)
             for (wb, wbi, ws) in writes:
                 v = const_bool_of(wb, ws)
                 if v is True:
@@ -576,7 +592,7 @@ def p6_no_blocking_under_lock(C, rep, rid, all_regions=False):
                 ok = False
                 why = ""
                 for g2 in cog:
-                    gw, _gb = field_writes(F, PSTATE, g2)
+                    gw, _gb = field_writes(F, NM.PS(), g2)
                     resets = [x for x in gw if const_bool_of(x[0], x[2]) is not True]
                     if resets:
                         why = "co-guard %s is itself reset at %s" % (g2, loc(resets[0][2]["sp"]))
@@ -652,7 +668,7 @@ def u3_reject_before_add(C, rep, rid, which=("conflict", "expiry", "total")):
         flags = [k for k, v in i["sets"].items() if v is True and i["guards"].get(k) is False]
         rep.ob(rid, bool(flags), F.root_of(i["body"]), "fail request sets its flag before sending", where=i["call"].loc, how=str(flags), detail="" if flags else "fail requester does not record the request")
         for fl in flags:
-            ws, _bs = field_writes(F, PSTATE, fl)
+            ws, _bs = field_writes(F, NM.PS(), fl)
             resets = [w for w in ws if const_bool_of(w[0], w[2]) is not True]
             rep.ob(rid, not resets, F.root_of(i["body"]), "the fail flag is never cleared", where=loc(resets[0][2]["sp"]) if resets else i["call"].loc, how="only `= true` writes",
                    detail="" if not resets else "flag %s can be cleared again at %s: a rejected set can become payable" % (fl, loc(resets[0][2]["sp"])))
@@ -671,14 +687,14 @@ def classify_gate(C, b, f):
             n = c.call.name
             if n in ("std::cmp::PartialEq::ne", "std::cmp::PartialEq::eq") and "messages::TrampolineInfo" in c.call.full:
                 want = (n.endswith("ne") and truth) or (n.endswith("eq") and not truth)
-                xa = strip(X.operand(b, c.call.args[0]))
-                xb = strip(X.operand(b, c.call.args[1]))
+                xa = strip(mm.inline_getters(C.F, X, strip(X.operand(b, c.call.args[0]))))     # getters are the fields they return
+                xb = strip(mm.inline_getters(C.F, X, strip(X.operand(b, c.call.args[1]))))
 
                 def is_entry(y):
-                    return y[0] == "field" and y[1] == "trampoline" and canon(y[2]) == PSTATE
+                    return y[0] == "field" and y[1] == "trampoline" and canon(y[2]) == NM.PS()
 
                 def is_new(y):
-                    return not is_entry(y) and any(z[0] == "call" and z[4].t.get("rty") == "htlc_manager::HtlcCheckResult" for z in walk(y))
+                    return not is_entry(y) and any(z[0] == "call" and z[4].t.get("rty") in NM.of(C.F).check for z in walk(y))
                 both = (is_entry(xa) and is_new(xb)) or (is_entry(xb) and is_new(xa))
                 if want and both:
                     return ("conflict", "trampoline != payment_state.trampoline")
@@ -741,8 +757,8 @@ def r2_ready_behind_predicate(C, rep, rid):
             if cnd.kind == "call" and cnd.call.name == "messages::TrampolineRoutingPolicy::fee_sufficient":
                 ea = strip(X.operand(b, cnd.call.args[1]))
                 eb = strip(X.operand(b, cnd.call.args[2]))
-                oka = ea[0] == "field" and ea[1] == "amount_received_msat" and canon(ea[2]) == PSTATE
-                okb = eb[0] == "field" and eb[1] == "amount_msat" and eb[2] == "messages::TrampolineInfo" and eb[4][0] == "field" and eb[4][1] == "trampoline" and canon(eb[4][2]) == PSTATE
+                oka = ea[0] == "field" and ea[1] == "amount_received_msat" and canon(ea[2]) == NM.PS()
+                okb = eb[0] == "field" and eb[1] == "amount_msat" and eb[2] == "messages::TrampolineInfo" and eb[4][0] == "field" and eb[4][1] == "trampoline" and canon(eb[4][2]) == NM.PS()
                 if truth and oka and okb:
                     good = True
                 else:
@@ -756,7 +772,7 @@ def r2_ready_behind_predicate(C, rep, rid):
 def r3_sum_discipline(C, rep, rid):
     rep.rule(rid, "the held sum is written only by `sum = sum (+) htlc.amount_msat` with checked/saturating/proved addition, exactly on the paths that also store the listener")
     F, X, A = C.F, C.X, C.A
-    writes, borrows = field_writes(F, PSTATE, "amount_received_msat")
+    writes, borrows = field_writes(F, NM.PS(), "amount_received_msat")
     rep.anchor(rid, "writes of PaymentState::amount_received_msat", len(writes), 1)
     rep.ob(rid, len(writes) == 1, "crate", "single write site of the held sum", how="%d" % len(writes), where=loc(writes[1][2]["sp"]) if len(writes) > 1 else "",
            detail="" if len(writes) == 1 else "the held sum is written at %d sites" % len(writes))
@@ -782,7 +798,7 @@ def r3_sum_discipline(C, rep, rid):
             a0 = a1 = None
         if a0 is not None:
             def is_sum(y):
-                return y[0] == "field" and y[1] == "amount_received_msat" and canon(y[2]) == PSTATE
+                return y[0] == "field" and y[1] == "amount_received_msat" and canon(y[2]) == NM.PS()
             def is_amt(y):
                 return y[0] == "field" and y[1] == "amount_msat" and y[2] == "messages::Htlc"
             ok = (is_sum(a0) and is_amt(a1)) or (is_sum(a1) and is_amt(a0))
@@ -812,7 +828,7 @@ def r3_sum_discipline(C, rep, rid):
 def m_min_expiry(C, rep, rid):
     rep.rule(rid, "the stored expiry is written only by `e = min(htlc.cltv_expiry, e)` on the paths that store the listener; initial value u32::MAX")
     F, X, A = C.F, C.X, C.A
-    writes, borrows = field_writes(F, PSTATE, "cltv_expiry")
+    writes, borrows = field_writes(F, NM.PS(), "cltv_expiry")
     rep.anchor(rid, "writes of PaymentState::cltv_expiry", len(writes), 1)
     rep.ob(rid, len(writes) == 1, "crate", "single write site of the minimum expiry", how="%d" % len(writes), detail="" if len(writes) == 1 else "%d write sites" % len(writes))
     for (b, bi, s) in writes:
@@ -823,7 +839,7 @@ def m_min_expiry(C, rep, rid):
         if e[0] == "call" and e[1] in ("std::cmp::min", "std::cmp::Ord::min") and len(e[2]) == 2:
             a0, a1 = e[2]
             def is_e(y):
-                return y[0] == "field" and y[1] == "cltv_expiry" and canon(y[2]) == PSTATE
+                return y[0] == "field" and y[1] == "cltv_expiry" and canon(y[2]) == NM.PS()
             def is_h(y):
                 return y[0] == "field" and y[1] == "cltv_expiry" and y[2] == "messages::Htlc"
             ok = (is_e(a0) and is_h(a1)) or (is_e(a1) and is_h(a0))
@@ -835,7 +851,7 @@ def m_min_expiry(C, rep, rid):
             rep.ob(rid, same, fn, "every held HTLC lowers the minimum", where=p.loc, how="push unreachable without the expiry update",
                    detail="" if same else "an HTLC can be held without its expiry entering the minimum")
     # constructor value
-    for b, bi, s in F.aggregates(PSTATE):
+    for b, bi, s in F.aggregates(NM.PS()):
         d = dict(zip(s["rv"]["fields"], s["rv"]["ops"]))
         e = strip(X.operand(b, d["cltv_expiry"])) if "cltv_expiry" in d else None
         ok = e is not None and ((e[0] == "constdef" and e[1].endswith("<impl u32>::MAX")) or (e[0] == "const" and e[2] == 2**32 - 1))
@@ -877,7 +893,7 @@ def l2_no_shared_blocking_state(C, rep, rid):
         if not panics.in_handler_scope(F, b):
             continue
         for r in guard_regions(F, b):
-            if re.search(ml.GUARD_TY, r.ty):
+            if re.search(ml.guard_ty(), r.ty):
                 continue
             if "FramedWrite" in r.ty:
                 continue  # the output writer: serialised by design (C17-W)
